@@ -118,12 +118,14 @@ class Canon:
     `sym` renames leaves (role maps); `fn` renames callees (role maps);
     casts are dropped (value-preserving by obligation elsewhere) unless keep_casts."""
 
-    def __init__(self, env=None, sym=None, fn=None, lang='c', fold_global=None):
+    def __init__(self, env=None, sym=None, fn=None, lang='c', fold_global=None, unify_divmod=False):
         self.env = env or {}
         self.sym = sym or {}
         self.fn = fn or {}
         self.lang = lang
         self.fold_global = fold_global
+        # when the rule declares the operands non-negative, truncating and flooring division coincide
+        self.unify_divmod = unify_divmod
 
     def leaf(self, name):
         if name in self.env:
@@ -211,6 +213,8 @@ class Canon:
                     q = q if (x >= 0) == (y >= 0) else -q
                     return Poly.const(q if op == '/' else x - q * y)
                 tag = {'/': 'tdiv', '//': 'fdiv', '%': 'tmod', '%%': 'fmod'}[op]
+                if self.unify_divmod:
+                    tag = {'tdiv': 'div', 'fdiv': 'div', 'tmod': 'mod', 'fmod': 'mod'}[tag]
                 return Poly.atom((tag, l.key(), r.key()))
             if op == '&' and r.is_const() and is_pow2(r.const_value() + 1):
                 # x & (2^n - 1)  ==  x mod 2^n  (floor modulus; operands are non-negative where used)
@@ -492,7 +496,8 @@ class Summary:
 
 class SymExec:
     def __init__(self, sym=None, fn=None, resolve=None, fold_global=None, lang='c', inline_bound=3,
-                 local_prefixes=(), bool_calls=()):
+                 local_prefixes=(), bool_calls=(), unify_divmod=False):
+        self.unify_divmod = unify_divmod
         self.sym = sym or {}
         self.fn = fn or {}
         self.resolve = resolve
@@ -680,7 +685,8 @@ class SymExec:
 
 class _InliningCanon(Canon):
     def __init__(self, sx, env):
-        Canon.__init__(self, env=env, sym=sx.sym, fn=sx.fn, lang=sx.lang, fold_global=sx.fold_global)
+        Canon.__init__(self, env=env, sym=sx.sym, fn=sx.fn, lang=sx.lang, fold_global=sx.fold_global,
+                       unify_divmod=sx.unify_divmod)
         self.sx = sx
 
     def __call__(self, e):
@@ -725,3 +731,35 @@ def formulas_equivalent(f, g, facts=None):
         if val.eval(f) != val.eval(g):
             return False, val.describe()
     return True, None
+
+
+def eval_poly(p, assign):
+    """numeric value of a Poly under {atom: int}; atoms may also be given by a callable assign(atom)."""
+    tot = 0
+    for mono, c in p.t.items():
+        v = c
+        for a in mono:
+            x = assign(a) if callable(assign) else assign.get(a)
+            if x is None:
+                raise KeyError(a)
+            v *= x
+        tot += v
+    return tot
+
+
+def eval_formula(f, assign):
+    k = f[0]
+    if k == 'true':
+        return True
+    if k == 'false':
+        return False
+    if k == 'not':
+        return not eval_formula(f[1], assign)
+    if k == 'and':
+        return eval_formula(f[1], assign) and eval_formula(f[2], assign)
+    if k == 'or':
+        return eval_formula(f[1], assign) or eval_formula(f[2], assign)
+    if k == 'bool':
+        return bool(eval_poly(Poly(dict(f[1])), assign))
+    v = eval_poly(Poly(dict(f[1])), assign)
+    return {'<': v < f[3], '<=': v <= f[3], '==': v == f[3]}[f[2]]
